@@ -87,7 +87,7 @@ def pattern_bytes(n, salt=0):
     return bytearray((unit * (n // 256 + 1))[:n])
 
 
-def novel_products(cmd, rng, cap=S.CAP, limit=1500):
+def novel_products(cmd, rng, cap=S.CAP, limit=6000):
     """arguments in which up to three fields at once take integer literals that the library's source has and the recorded
     baseline (vmon/srcdict.py) has not, the rest random: a trigger written as `a == X and b == Y and c == Z` is hit although a
     uniform draw never would. Nothing on the unchanged tree."""
@@ -101,9 +101,9 @@ def novel_products(cmd, rng, cap=S.CAP, limit=1500):
     per = {}
     for name, (kind, width, d) in cmd.args.items():
         if kind in ("u", "alloc", "tl", "cdtl"):
-            vals = [v for v in nv if 0 <= v < (1 << width)]
+            vals = srcdict.novel_exact(width) if width > 8 else [v for v in nv if 0 <= v < (1 << width)]
             if vals:
-                per[name] = vals if len(vals) <= 6 else rng.sample(vals, 6)
+                per[name] = vals if len(vals) <= 8 else rng.sample(vals, 8)
     names = sorted(per)
     combos = []
     for k in (1, 2, 3):
@@ -113,7 +113,7 @@ def novel_products(cmd, rng, cap=S.CAP, limit=1500):
     if len(combos) > limit:
         combos = rng.sample(combos, limit)
     for force in combos:
-        for _rep in range(2):
+        for _rep in range(6 if cmd.xfer == "ata" else 2):  # (ATA pass-through: the protocol flags around the forced fields vary too)
             a = random_args(cmd, rng, cap=cap, force=force)
             if all(a.get(k) == v for k, v in force.items()):
                 yield a
